@@ -273,7 +273,7 @@ package engine
 // ---- C10: the limit is installed on the connection before the first read --------------------------------
 //@ func (*server).OnWebTransportSession(ctx, wt)
 //@   props C10, C08, C09
-//@   requires s != nil && s.BaseServer != nil && ctx != nil && wt != nil && ctx.request != nil && ctx.query != nil
+//@   requires s != nil && s.BaseServer != nil && ctxOK(ctx) && wt != nil
 //@   dyncall allowRequest pure
 //@   opt stopafter = (*webtrans.Conn).NextReader#1
 //@   modifies *
